@@ -1298,7 +1298,8 @@ def check_e2e(ctx, pid):
             # the corpus of hand-written / minimised cases runs first (refutation witnesses of the guard clauses included)
             import corpus
 
-            cases, rcases = corpus.cases(pid)
+            h_, leaves_, names_ = _hier()
+            cases, rcases = corpus.cases(pid, [x for x in leaves_ if x not in EXEC_LEVEL])
             m = 0
             res = runner.run_cases(rcases)
             metas, err = e2e.three_way(ctx.work, cases, res, "%s_corpus" % pid)
@@ -1346,6 +1347,11 @@ def check_e2e(ctx, pid):
                 st["disagreements"] += 1
                 which = ("original program: MiniPy semantics vs CPython" if code & 1 else "") + (" instrumented program: model of instrumenter+runtime vs DynaPyt" if code & 2 else "")
                 ctx.broken.append("model/implementation disagree (%s) on case %s seed %d: %s" % (which.strip(), rc["id"], ctx.seed, rc["files"]["main.py"][:300].replace("\n", " | ")))
+                if (code & 2) and not (code & 1) and (code & bit):
+                    # the search for a failing input ends here: on this program the implementation also deviates from the
+                    # reference semantics in this property's observation, and not in the way the model of the known
+                    # deviations predicts
+                    ctx.violation("%s:deviation" % pid, "the implementation deviates from the reference semantics (verdict bits %d) and from the model of its known behaviour: %s" % (code, rc["files"]["main.py"][:400].replace("\n", " | ")), {"case": rc, "bits": code, "clauses": meta.get("clauses")})
                 continue
             if code & bit:
                 cl = meta.get("clauses") or []
